@@ -355,7 +355,6 @@ theorem N1_t_polar_partial (hc : c * c = 2) (h2 : (2:K) ≠ 0) (A : M3 K) :
      | [u0, u1, u2, r0, r1, r2] =>
          M3.diag r0 r1 r2 = 1 ∧ M3.diag r0 r1 r2 * M3.diag u0 u1 u2 = M3.diag A.a00 A.a11 A.a22
      | _ => False) := by
-  t4_unfold
-  refine ⟨⟨?_, ?_, ?_⟩, ⟨?_, ?_, ?_⟩⟩ <;> first | trivial | rfl | ring1
+  t4_eq hc
 
 end TfelVerif.C02.Props
